@@ -181,8 +181,12 @@ def run_app(case):
             state['exit'] = await compat._ensure(app.run())
             # Application.run_sync(): stop the loop, let the ready callbacks run once more
             await turns(3)
-    with quiet():
-        compat.run(go())
+    try:
+        with quiet():
+            compat.run(go())
+    except BaseException:
+        shutil.rmtree(work, ignore_errors=True)
+        raise
     return work, state
 
 
@@ -305,6 +309,9 @@ def run_processor(case):
         os.chdir(work)
         with quiet():
             compat.run(go())
+    except BaseException:
+        shutil.rmtree(work, ignore_errors=True)
+        raise
     finally:
         os.chdir(cwd)
         if fault:
